@@ -44,4 +44,30 @@ def reachesSender {F : Type} (hasSender : Bool) : Sendable F → Bool
   | .none => false
   | _ => hasSender
 
+/-! ## The two wait loops of `Filter.loop_once` and their budgets (`filter.py`)
+
+```
+while (frames := self.mq.recv(min(POLL_TIMEOUT_MS, sources_timeout))) is None:
+    …; if (sources_timeout := sources_timeout - POLL_TIMEOUT_MS) <= 0: frames = {}; break
+frames = self.process_frames(frames)
+while not self.mq.send(frames, min(POLL_TIMEOUT_MS, outputs_timeout)):
+    …; if (outputs_timeout := outputs_timeout - POLL_TIMEOUT_MS) <= 0: break
+```
+`Filter.init`: `self.sources_timeout = inf if config.sources_timeout is None else int(…)`, the same for `outputs_timeout`.
+A budget is `none` (= `float('inf')`) or `some ms`.  `waitLoop poll budget blocked` = what one of these loops does when the
+first `blocked` attempts fail (return `None` / `False`) and the next one would succeed: (number of attempts made, gave up).
+The stop-event check between attempts is part of the lifecycle model (Lifecycle.lean), not of this one. -/
+
+def waitLoop (poll : Int) : Option Int → Nat → Nat × Bool
+  | _, 0 => (1, false)
+  | none, b + 1 => let r := waitLoop poll none b; (r.1 + 1, r.2)
+  | some ms, b + 1 =>
+    if ms - poll ≤ 0 then (1, true)
+    else let r := waitLoop poll (some (ms - poll)) b; (r.1 + 1, r.2)
+
+/-- one `loop_once` of a relay whose `recv` yields a frame set at once and whose `send` is blocked for the first `blocked`
+attempts: does the relay go back to `recv` (take another frame from upstream) without having sent? -/
+def relayPullsWhileBlocked (poll : Int) (outputsTimeout : Option Int) (blocked : Nat) : Bool :=
+  (waitLoop poll outputsTimeout blocked).2
+
 end OF.Loop
